@@ -1288,6 +1288,8 @@ def r00(ctx, repo, files=None):
                             'reductions use it: the result is a global '
                             'instead of a per-slice quantity' % (
                                 norm_stmt(c)[:60], first[0], construct))
+        from . import lint2
+        bad += lint2.check(ctx, repo, T, rel, cls, fn, construct, rule)
         if not bad:
             ctx.ok(rule, repo.loc(fn, cls, fn.name), construct,
                    'loop elements are used, no stale loop variable, every '
